@@ -139,7 +139,7 @@ class C12:
             paths = [(compile_term(lv, names)[0], compile_term(tm, names)[0], r) for lv, tm, r in rets]
         except Unknown:
             return None
-        pts = [0.0, 1.0, 2.0, 3.0]
+        pts = [0.0, 1.0, 1.0 + 2.0 ** -40, 2.0, 3.0]  # two end points a rounding step apart: a tolerance shows there
         ivl = [(a, b) for a in pts for b in pts if a <= b]
         ths = {"no threshold": [None], "absolute": [0.0, 0.5, 1.0, 2.0], "relative": [0.0, 0.5, 1.0]}[mode]
         for (a0, a1), (b0, b1), th in itertools.product(ivl, ivl, ths):
